@@ -11,3 +11,6 @@ import Adsg.Props.C15
 #print axioms Adsg.C15.all_freed_restores
 #print axioms Adsg.C15.fix_rejects
 #print axioms Adsg.C15.decode_in_restricted
+#print axioms Adsg.C15.restrict_mono
+#print axioms Adsg.C15.restrict_append
+#print axioms Adsg.C15.restrict_count_le
